@@ -136,6 +136,10 @@ impl Octree {
                 .map_init(
                     || (OctreeBuilder::new(settings, vars), rh.clone()),
                     |(builder, eval), cell| {
+                        #[cfg(feature = "verif-hooks")]
+                        fidget_core::verif::point(
+                            fidget_core::verif::Point::OctreeTask,
+                        );
                         let mut hermite = LeafHermiteData::default();
                         // Patch our cell so that it builds at index 0
                         let local_cell = CellIndex {
